@@ -31,3 +31,103 @@ package objecttree
 //@     invariant ourPath[before(i)] == theirPath[before(j)]
 //@     invariant forall k int :: 0 < k && k <= before(i) - i ==> ourPath[i+k] == theirPath[j+k]
 //@     decreases i + 1
+
+// ---------------------------------------------------------------------------------------------
+// C10: tree storage writes are one transaction: every write uses the transaction's context, exactly
+// one of Commit/Rollback happens, and success is reported iff the commit succeeded.
+// (Ghost transaction state and the assumed any-store contracts: /verif/catalog/anystore.gospec.)
+//
+//@ func newStorageChangeValue
+//@   trusted
+//@   modifies nothing
+//@   ensures result != nil
+//
+//@ func (*storage).AddAll
+//@   requires s != nil && s.store != nil && s.changesColl != nil && s.headStorage != nil && s.arena != nil && s.addSeq != nil
+//@   requires !txOpened && !txCommitted && !txRolledBack && !txCommitCalled
+//@   ensures [ok_implies_committed]    result == nil ==> txCommitted
+//@   ensures [err_implies_not_committed] result != nil ==> !txCommitted
+//@   ensures [err_implies_rolled_back] result != nil && txOpened ==> txRolledBack || txCommitCalled
+//@   ensures [commit_xor_rollback]     !(txCommitCalled && txRolledBack)
+//@   ensures [closed]                  txOpened ==> txCommitCalled || txRolledBack
+//@   loop 0:
+//@     invariant txOpened && !txCommitted && !txRolledBack && !txCommitCalled && curTx == tx && tx != nil
+//@     invariant s.changesColl == old(s.changesColl) && s.headStorage == old(s.headStorage) && s.arena == old(s.arena) && s.addSeq == old(s.addSeq)
+//@     invariant err == nil
+//@     invariant -1 <= rangeindex && rangeindex < len(changes)
+
+//@ func (*storage).AddAllNoError
+//@   requires s != nil && s.store != nil && s.changesColl != nil && s.headStorage != nil && s.arena != nil && s.addSeq != nil
+//@   requires !txOpened && !txCommitted && !txRolledBack && !txCommitCalled
+//@   ensures [ok_implies_committed]    result == nil ==> txCommitted
+//@   ensures [err_implies_not_committed] result != nil ==> !txCommitted
+//@   ensures [err_implies_rolled_back] result != nil && txOpened ==> txRolledBack || txCommitCalled
+//@   ensures [commit_xor_rollback]     !(txCommitCalled && txRolledBack)
+//@   ensures [closed]                  txOpened ==> txCommitCalled || txRolledBack
+//@   loop 0:
+//@     invariant txOpened && !txCommitted && !txRolledBack && !txCommitCalled && curTx == tx && tx != nil
+//@     invariant s.changesColl == old(s.changesColl) && s.headStorage == old(s.headStorage) && s.arena == old(s.arena) && s.addSeq == old(s.addSeq)
+//@     invariant -1 <= rangeindex && rangeindex < len(changes)
+
+//@ func (*storage).Delete
+//@   requires s != nil && s.store != nil && s.changesColl != nil
+//@   requires !txOpened && !txCommitted && !txRolledBack && !txCommitCalled
+//@   ensures [ok_implies_committed]    result == nil ==> txCommitted
+//@   ensures [err_implies_not_committed] result != nil ==> !txCommitted
+//@   ensures [commit_xor_rollback]     !(txCommitCalled && txRolledBack)
+//@   ensures [closed]                  txOpened ==> txCommitCalled || txRolledBack
+
+// CreateStorageTx writes with the context it is given: that must be the open transaction's.
+//@ func CreateStorageTx
+//@   requires root != nil && headStorage != nil && store != nil
+//@   requires [ctx_is_tx] ctx == txCtx(curTx)
+//@   ensures result1 == nil ==> result0 != nil
+
+//@ func CreateStorage
+//@   requires root != nil && headStorage != nil && store != nil
+//@   requires !txOpened && !txCommitted && !txRolledBack && !txCommitCalled
+//@   ensures [ok_implies_committed]    result1 == nil ==> txCommitted
+//@   ensures [err_implies_not_committed] result1 != nil ==> !txCommitted
+//@   ensures [commit_xor_rollback]     !(txCommitCalled && txRolledBack)
+//@   ensures [closed]                  txOpened ==> txCommitCalled || txRolledBack
+
+// ---------------------------------------------------------------------------------------------
+// C10: after a failed local add the live tree agrees with storage again. Ghost typestate:
+// memAhead = the in-memory tree holds something storage does not; rebuildFromStorage clears it.
+//
+//@ ghost memAhead Bool stable
+//@ ghost rebuilt Bool stable
+//@ func (*Tree).AddMergedHead
+//@   trusted
+//@   sets memAhead = true
+//@ func (*objectTree).rebuildFromStorage
+//@   trusted
+//@   sets memAhead = false
+//@   sets rebuilt = true
+// helpers that only read / allocate (assumed frames, bodies not verified here)
+//@ func (*objectTree).prepareBuilderContent
+//@   trusted
+//@   modifies nothing
+//@ func (*objectTree).validateTree
+//@   trusted
+//@   modifies nothing
+//@ func (*objectTree).logUseWhenUnlocked
+//@   trusted
+//@   modifies nothing
+//@ func iface objecttree.ChangeBuilder.Build
+//@   modifies nothing
+//@   ensures result2 == nil ==> result0 != nil && result1 != nil
+//@ func iface objecttree.Storage.AddAll
+//@   modifies nothing
+//@ package github.com/anyproto/lexid
+//@ func *
+//@   modifies nothing
+//@ package github.com/anyproto/any-sync/commonspace/object/tree/objecttree
+//
+//@ func (*objectTree).AddContentWithValidator
+//@   allow panic
+//@   callback validator modifies nothing
+//@   requires ot != nil && ot.tree != nil && ot.changeBuilder != nil && ot.storage != nil && ot.tree.root != nil && ot.tree.attached != nil
+//@   requires !memAhead && !rebuilt
+//@   ensures [err_keeps_tree_or_rebuilds] err != nil ==> rebuilt || (ot.tree == old(ot.tree) && !memAhead)
+//@   ensures [ok_not_rebuilt]             err == nil ==> !rebuilt
